@@ -2,6 +2,7 @@
 control flow is the graph, so the case split over graphs is exhaustive enumeration of holes),
 plus concrete depth/width sentinels."""
 import copy
+import itertools
 import sys
 import time
 
@@ -93,6 +94,47 @@ def rdfs_search(sp, n, maxdeg, maxfin, first):
     for v in range(n):
         sp.prove(sorted(rt[v]) == sorted(u for (u, x) in edges if x == v),
                  "reversed table entry %d is %s" % (v, rt[v]))
+
+
+def _sym_jobs(tier, seed):
+    jobs = []
+    for n, maxdeg in ([(1, 2), (2, 2)] if tier == "quick" else [(1, 3), (2, 3), (3, 2)]):
+        for degs in itertools.product(range(maxdeg + 1), repeat=n):
+            for nf in (1, 2):
+                jobs.append(dict(n=n, degs=list(degs), nf=nf, _cost=(n ** sum(degs)) * n ** nf, _timeout_s=3000))
+    return jobs
+
+
+@harness("rdfs.symbolic", props=["C07"], jobs=_sym_jobs, covers=["cycle", "self_loop", "parallel", "dup_final"],
+         bounds="n<=2 states with out-degree <=2 (thorough: n<=2 degree <=3, n=3 degree <=2), 1-2 final states: every successor index and "
+                "every final state is a SOLVER VARIABLE constrained to 0..n-1",
+         desc="real reverse_dfs / reverse_transition_list with symbolic successor and final indices: the code's own dictionary lookups "
+              "force the case split, the solver proposes every feasible value; result = sorted duplicate-free non-final states with a "
+              "path to a final state; reversed table complete")
+def rdfs_symbolic(sp, n, degs, nf):
+    m = repo.std().reverse_dfs
+    tl = [[(LABELS[(3 * s + k) % len(LABELS)], sp.int("t%d_%d" % (s, k), 0, n - 1)) for k in range(degs[s])] for s in range(n)]
+    finals = [sp.int("f%d" % k, 0, n - 1) for k in range(nf)]
+    got = m.reverse_dfs(tl, finals)
+    ctl = [[(lab, int(x)) for lab, x in tr] for tr in tl]          # decided by the path condition by now
+    cfin = [int(f) for f in finals]
+    exp = _oracle(n, ctl, cfin)
+    edges = [(u, v) for u in range(n) for _, v in ctl[u]]
+    if any(u == v for u, v in edges):
+        sp.cover("self_loop")
+    if len(set(edges)) < len(edges):
+        sp.cover("parallel")
+    if len(set(cfin)) < len(cfin):
+        sp.cover("dup_final")
+    if any((v, u) in edges and u != v for u, v in edges):
+        sp.cover("cycle")
+    sp.note("graph", [[v for _, v in tr] for tr in ctl])
+    sp.note("finals", cfin)
+    sp.prove([int(x) for x in got] == exp, "reverse_dfs(%s, finals=%s) = %s, expected %s" % ([[v for _, v in tr] for tr in ctl], cfin, got, exp))
+    rt = m.reverse_transition_list(tl)
+    sp.prove(sorted(int(k) for k in rt.keys()) == list(range(n)), "reversed table keys")
+    for v in range(n):
+        sp.prove(sorted(int(u) for u in rt[v]) == sorted(u for (u, x) in edges if x == v), "reversed table entry %d" % v)
 
 
 def _sentinel_jobs(tier, seed):
